@@ -126,12 +126,11 @@ def snap_globals():
     """PreferredUnits slots, global step, (debug flag)."""
     pb = lib.pb
     from pbsim.names import SLOT_NAMES
-    import py_ballisticcalc.trajectory_calc as tc
     slots = {}
     for s in SLOT_NAMES:
         v = getattr(pb.PreferredUnits, s, None)
         slots[s] = v.name if isinstance(v, pb.Unit) else "!" + repr(v)[:60]
-    return {"slots": slots, "gstep": fhex(tc._globalMaxCalcStepSizeFeet)}
+    return {"slots": slots, "gstep": fhex(lib.global_step_feet())}
 
 
 def snap_tables():
